@@ -56,7 +56,7 @@ class IPv6Unicast(NLRI):
             for i in range(0, zero_len):
                 prefix_bit += b'\x00'
 
-            prefix_addr = str(netaddr.IPAddress(int(binascii.b2a_hex(prefix_bit), 16))) + '/%s' % prefix_bit_len
+            prefix_addr = str(netaddr.IPAddress(int(binascii.b2a_hex(prefix_bit), 16), 6)) + '/%s' % prefix_bit_len
             if addpath:
                 nlri_list.append({'prefix': prefix_addr, 'path_id': path_id})
             else:
